@@ -421,6 +421,15 @@ def check_behaviour(w, failures, step, desc):
             except Exception as e:
                 failures.append(Failure("probe-load-raised:%s" % exc_key(e), "%s on %s: %s" % (text, cls.__name__, exc_msg(e))))
                 return evals
+            # every entry point that takes Loader= uses that class
+            try:
+                got_all = list(yaml.load_all(text, Loader=cls))[0]
+            except yaml.YAMLError:
+                got_all = "error"
+            if got_all != got:
+                failures.append(Failure("behaviour:entry-points-disagree:load_all", "after step %d (%s): %s: load gives %r, load_all %r for %r" % (
+                    step, desc, cls.__name__, got, got_all, text)))
+                return evals
             gname = "%s%d" % got if isinstance(got, tuple) and len(got) == 2 and got[0] in ("ctor", "mctor") else None
             if wname != gname:
                 failures.append(Failure("behaviour:constructor-winner", "after step %d (%s): %s loads %r with %r, the rule predicts %r" % (
@@ -453,6 +462,14 @@ def check_behaviour(w, failures, step, desc):
             except Exception as e:
                 # e.g. a diamond of a LibYAML and a pure-Python dumper cannot be instantiated: nothing to probe
                 continue
+            try:
+                out_all = yaml.dump_all([typ()], Dumper=cls)
+            except yaml.YAMLError:
+                out_all = "error"
+            if out_all != out:
+                failures.append(Failure("behaviour:entry-points-disagree:dump_all", "after step %d (%s): %s: dump gives %r, dump_all %r" % (
+                    step, desc, cls.__name__, out[:60], out_all[:60])))
+                return evals
             m = re.search(r"!r[0-9]+", out)
             gtag = m.group() if m else None
             if gtag != wtag:
@@ -480,6 +497,37 @@ def check_behaviour(w, failures, step, desc):
             if got != want:
                 failures.append(Failure("behaviour:implicit-resolver", "after step %d (%s): %s resolves %r to %r, the rule predicts %r" % (
                     step, desc, cls.__name__, text, got, want)))
+                return evals
+            got_all = [n.tag for n in yaml.compose_all(text, Loader=cls)]
+            got_ev = [e.implicit for e in yaml.parse(text, Loader=cls) if type(e).__name__ == "ScalarEvent"]
+            if got_all != [want] or got_ev != [(True, False)]:
+                failures.append(Failure("behaviour:entry-points-disagree:compose_all", "after step %d (%s): %s: compose_all gives %r for %r, the rule predicts %r" % (
+                    step, desc, cls.__name__, got_all, text, want)))
+                return evals
+    # the dumper side of the implicit resolvers, through serialize / serialize_all: a !!str node whose text the class resolves
+    # to another tag cannot be written plain
+    for cls in w.dumpers:
+        table = w.model.effective(cls, "implicit") or {}
+        if w.model.effective(cls, "path"):
+            continue
+        for k in sorted(w.used_patterns):
+            text = probes[k]
+            evals += 1
+            want = "tag:yaml.org,2002:str"
+            for tg, rx in table.get(text[0], []) + table.get(None, []):
+                if rx.match(text):
+                    want = tg
+                    break
+            node = yaml.nodes.ScalarNode("tag:yaml.org,2002:str", text)
+            try:
+                out = yaml.serialize(node, Dumper=cls)
+                out_all = yaml.serialize_all([node], Dumper=cls)
+            except Exception as e:
+                continue        # a diamond of a LibYAML and a pure-Python dumper cannot be instantiated
+            plain = out.startswith(text)
+            if out_all != out or plain != (want == "tag:yaml.org,2002:str"):
+                failures.append(Failure("behaviour:implicit-resolver:serialize", "after step %d (%s): %s serializes the !!str node %r as %r (serialize_all: %r); the rule says the class resolves that text to %r" % (
+                    step, desc, cls.__name__, text, out, out_all, want)))
                 return evals
     if w.used_paths:
         nodes = yaml.nodes
